@@ -131,6 +131,8 @@ def run(rep):
             items.append({"line": line, "text": text, "cfg": cfg, "lang": "en", "expected": c["expected"], "variant": var, "pre": pre,
                           "feat": feat_of(line, text), "class_fn": cls, "nontrivial": two})
     forms.replay(rep, items, "c06.gen")
+    if forms.CAPTURE is not None:
+        return
     replay_histories(rep, hists)
     random_trace(rep, 150 if quick else 2000)
 
